@@ -9,7 +9,7 @@ import warnings
 import numpy as np
 
 from .. import tables
-from ..common import V, samples_of, seed_offset
+from ..common import LCG, V, samples_of, seed_offset
 
 LONG = ["pseudopressure", "compressibility", "pressure", "viscosity", "z-factor"]
 SHORT = ["pressure", "pseudopressure", "alpha"]
@@ -24,6 +24,18 @@ def get_table(name, container):
                             "Reservoir Temperature (deg F)": 220.0}, "dry gas", maximum_pressure=6000)
         return df if container == "frame" else {c: df[c].to_numpy().copy() for c in df.columns}
     return tables.table(name, frame=(container == "frame"))
+
+
+def thin(tb, container, seed=0):
+    """An irregular subset of the rows (steps of 1..40 rows): a legal table with a NON-UNIFORM pressure grid.  A frame
+    keeps its original index labels (a table filtered the usual way, df[mask], without reset_index)."""
+    n = len(np.asarray(tb["pressure"]))
+    g = LCG(seed + 17)
+    idx = np.unique(np.minimum(np.cumsum([1 + int(40 * g.next() ** 3) for _ in range(n)]), n - 1))
+    idx = idx[idx > 0]  # (drop row 0 as well: the index then does not start at 0)
+    if container == "frame":
+        return tb.iloc[idx]
+    return {k: np.asarray(v)[idx].copy() for k, v in tb.items()}
 
 
 def snapshot(tb):
@@ -50,6 +62,8 @@ def construct(branch, tb, p_i):
 def eval_construct(case):
     name, container, branch, where = case["table"], case["container"], case["branch"], case["where"]
     tb = get_table(name, container)
+    if case.get("rows") == "irregular":
+        tb = thin(tb, container, case.get("seed", 0))
     if branch == "simple" or (branch == "long" and "alpha" in tb):
         keep = SIMPLE if branch == "simple" else None
         if keep and not all(k in tb for k in keep):
@@ -62,7 +76,7 @@ def eval_construct(case):
         a_user = 3.0 / (np.asarray(tb["compressibility"]) * np.asarray(tb["viscosity"])) ** 0.5
         ok = np.asarray(tb["pseudopressure"]) > 0
         if container == "frame":
-            tb = tb[ok].reset_index(drop=True)
+            tb = tb[ok].reset_index(drop=True) if case.get("rows") != "irregular" else tb[ok].copy()
             tb["alpha"] = a_user[ok]
         else:
             tb = {k: np.asarray(v)[ok] for k, v in tb.items()}
@@ -74,7 +88,7 @@ def eval_construct(case):
             if container == "frame":
                 tb = tb[["pressure", "pseudopressure"]].copy()
                 tb["alpha"] = a
-                tb = tb[ok].reset_index(drop=True)
+                tb = tb[ok].reset_index(drop=True) if case.get("rows") != "irregular" else tb[ok]
             else:
                 tb = {"pressure": np.asarray(tb["pressure"])[ok], "pseudopressure": np.asarray(tb["pseudopressure"])[ok],
                       "alpha": a[ok]}
@@ -84,7 +98,7 @@ def eval_construct(case):
     viol = []
     try:
         fl = construct(branch, tb, p_i)
-    except (ValueError, KeyError) as e:
+    except Exception as e:  # noqa: BLE001 - the statement says "raise an error", whatever its type
         if where in ("below", "above"):
             ok = snapshot(tb) == snap
             return {"violations": [] if ok else [V("caller-table-modified", "a rejected construction modified the "
@@ -211,11 +225,8 @@ def eval_missing(case):
     p = np.asarray(tb["pressure"], dtype=float)
     try:
         construct(case["branch"], sub, float(p[len(p) // 2]))
-    except (ValueError, KeyError):
+    except Exception:  # noqa: BLE001 - "raise an error", whatever its type
         return {"violations": [], "outcome": "missing-rejected"}
-    except Exception as e:  # noqa: BLE001
-        return {"violations": [V("missing-column/wrong-exception", f"table without {drop!r}: {type(e).__name__}",
-                                 case=case)], "outcome": "wrong-exception"}
     return {"violations": [V("missing-column/accepted", f"table without {drop!r} was accepted", case=case)],
             "outcome": "accepted"}
 
@@ -224,10 +235,25 @@ def eval_rescale(case):
     from bluebonnet.flow.flowproperties import rescale_pseudopressure  # noqa: PLC0415
 
     tb = get_table(case["table"], case["container"])
+    if case.get("rows") == "irregular":
+        tb = thin(tb, case["container"])
     p = np.asarray(tb["pressure"], dtype=float)
     p_f = p[0] + case["ff"] * (p[-1] - p[0])
     p_i = p[0] + case["fi"] * (p[-1] - p[0])
+    if case.get("drop"):
+        tb = tb.drop(columns=["pseudopressure"]) if case["container"] == "frame" else \
+            {k: v for k, v in tb.items() if k != "pseudopressure"}
     snap = snapshot(tb)
+    if case.get("drop") or not (p[0] <= p_f <= p[-1] and p[0] <= p_i <= p[-1]):
+        what = "no pseudopressure column" if case.get("drop") else f"p_frac={p_f:.6g}, p_i={p_i:.6g} outside [{p[0]:.6g}, {p[-1]:.6g}]"
+        try:
+            rescale_pseudopressure(tb, p_f, p_i)
+        except Exception:  # noqa: BLE001
+            ok = snapshot(tb) == snap
+            return {"violations": [] if ok else [V("caller-table-modified", "a rejected rescaling modified the caller's "
+                                                   "table", case=case)], "outcome": "rescale-rejected"}
+        return {"violations": [V("rescale/outside-table-accepted", f"rescale_pseudopressure accepted {what}", case=case)],
+                "outcome": "rescale-accepted-outside"}
     try:
         out = rescale_pseudopressure(tb, p_f, p_i)
     except Exception as e:  # noqa: BLE001
@@ -262,17 +288,23 @@ def cases(tier, seed):
     out = []
     wheres = ["first", "node", "mid", "offnode", "last", "below", "above"]
     for t, c, b, w in itertools.product(tabs, ["frame", "dict"], ["long", "alpha", "simple"], wheres):
-        if b == "long" and w == "first" and False:
-            continue
         out.append({"kind": "construct", "table": t, "container": c, "branch": b, "where": w, "off": off})
+        if t in ("T_ship_gas", "T_ship_oil", "S_zdip", "A_kink", "A_int"):  # non-uniform pressure grid, non-default frame index
+            out.append({"kind": "construct", "table": t, "container": c, "branch": b, "where": w, "off": off,
+                        "rows": "irregular", "seed": seed})
     for t, c, w in itertools.product(["T_ship_gas", "S_zdip"], ["frame", "dict"], ["node", "mid", "last"]):
         out.append({"kind": "construct", "table": t, "container": c, "branch": "alpha", "where": w, "off": off, "both": True})
     for t, c, b in itertools.product(["T_ship_gas", "A_kink"], ["frame", "dict"], ["long", "alpha", "simple"]):
         for drop in {"long": LONG, "alpha": SHORT, "simple": SIMPLE}[b]:
             out.append({"kind": "missing", "table": t, "container": c, "branch": b, "drop": drop})
-    for t, c, (ff, fi) in itertools.product(["T_ship_gas", "T_ship_oil", "S_zdip", "A_kink"], ["frame", "dict"],
-                                           [(0.0, 1.0), (0.1, 0.8), (0.123456, 0.654321), (0.8, 0.2)]):
+    for t, c, (ff, fi) in itertools.product(["T_ship_gas", "T_ship_oil", "S_zdip", "A_kink", "A_int"], ["frame", "dict"],
+                                           [(0.0, 1.0), (0.1, 0.8), (0.123456, 0.654321), (0.8, 0.2),
+                                            (0.1, 1.2), (-0.01, 0.8), (0.5, 1.0 + 1e-9)]):  # the last three: outside the table
         out.append({"kind": "rescale", "table": t, "container": c, "ff": ff, "fi": fi})
+        if 0 <= ff <= 1 and 0 <= fi <= 1:
+            out.append({"kind": "rescale", "table": t, "container": c, "ff": ff, "fi": fi, "rows": "irregular"})
+    for t, c in itertools.product(["T_ship_gas", "A_kink"], ["frame", "dict"]):
+        out.append({"kind": "rescale", "table": t, "container": c, "ff": 0.1, "fi": 0.8, "drop": True})
     return out
 
 
